@@ -1009,6 +1009,12 @@ def np_isfinite(it, x):
     return _ret(npm.unary(f, _arr(it, x), "bool"))
 
 
+def np_flatnonzero(it, x):
+    a = _arr(it, x)
+    idx = [i for i, e in enumerate(a.data) if it.truth(e)]
+    return NDArr(idx, (len(idx),), "int")
+
+
 def np_argmin(it, x):
     a = _arr(it, x)
     if a.size == 0:
@@ -1113,7 +1119,7 @@ def _np_table():
                  ("median", np_median), ("isnan", np_isnan), ("linspace", np_linspace),
                  ("intersect1d", np_intersect1d), ("nonzero", np_nonzero), ("transpose", np_transpose),
                  ("isclose", np_isclose), ("allclose", np_allclose), ("argmin", np_argmin), ("hypot", np_hypot), ("cross", np_cross),
-                 ("cumsum", np_cumsum), ("sort", np_sort), ("argsort", np_argsort), ("array_equal", np_array_equal), ("isfinite", np_isfinite)]:
+                 ("cumsum", np_cumsum), ("sort", np_sort), ("argsort", np_argsort), ("array_equal", np_array_equal), ("isfinite", np_isfinite), ("flatnonzero", np_flatnonzero)]:
         t[n] = ModelFn("np." + n, f)
     t["zeros"] = ModelFn("np.zeros", lambda it, shape, dtype="float": npm.zeros(_shape(it, shape)))
     t["ones"] = ModelFn("np.ones", lambda it, shape: npm.ones(_shape(it, shape)))
@@ -1188,8 +1194,8 @@ def ndarray_attr(it, a, name):
         "std": lambda it_: np_std(it, a),
         "max": lambda it_: np_max(it, a),
         "min": lambda it_: np_min(it, a),
-        "any": lambda it_: np_any(it, a),
-        "all": lambda it_: np_all(it, a),
+        "any": lambda it_, axis=None: np_any(it, a, axis),
+        "all": lambda it_, axis=None: np_all(it, a, axis),
         "copy": lambda it_: a.copy(),
         "dot": lambda it_, b: np_dot(it, a, b),
         "item": lambda it_: a.data[0],
